@@ -1,6 +1,7 @@
 package main
 
 import (
+	"sync"
 	"fmt"
 	"time"
 
@@ -363,6 +364,45 @@ func genBoundary(out *Output, rng *Rng, perLint int, cfg lint.Configuration) {
 					}
 				}
 			}
+		}
+		// very large lists (a size-dependent path inside the entry point is a path): the same, many times over and from four
+		// goroutines at once, each on its own parsed copy
+		for _, cc := range crlZoo() {
+			if len(cc.CRL.RevokedCertificates) < 2000 {
+				continue
+			}
+			reps := 60
+			if tier() == "thorough" {
+				reps = 600
+			}
+			var wg sync.WaitGroup
+			var mu sync.Mutex
+			for w := 0; w < 4; w++ {
+				wg.Add(1)
+				go func() {
+					defer wg.Done()
+					defer func() { recover() }()
+					crl, err := safeParseCRL(cc.DER)
+					if err != nil {
+						return
+					}
+					crl.ThisUpdate = time.Date(2015, 6, 1, 0, 0, 0, 0, time.UTC)
+					for r := 0; r < reps; r++ {
+						rs := zlint.LintRevocationListEx(crl, g)
+						for _, l := range g.RevocationListLints().Lints() {
+							if res := rs.Results[l.Name]; res != nil && !inWindowSpec(l.EffectiveDate, l.IneffectiveDate, crl.ThisUpdate) && res.Status >= lint.Pass && res.Status <= lint.Error {
+								mu.Lock()
+								out.Violate("C03|finding-outside-window:whole-run:"+l.Name, fmt.Sprintf("LintRevocationListEx reports %s for %s on a list of %d entries with thisUpdate 2015-06-01, outside the lint's window (run %d of %d)", res.Status, l.Name, len(crl.RevokedCertificates), r+1, reps),
+									map[string]interface{}{"lint": l.Name, "crl": cc.File, "entries": len(crl.RevokedCertificates)}, "NE", res.Status.String())
+								mu.Unlock()
+								return
+							}
+						}
+					}
+				}()
+			}
+			wg.Wait()
+			whole += 4 * reps
 		}
 		out.Stats["boundary_whole_runs"] = whole
 	}
